@@ -116,7 +116,7 @@ def discharge(rec, plan=None, seed=0, budget_scale=1.0):
     if rec.get("kind") in ("canary", "cover"):
         plan = [("full", "z3", 3), ("full", "nra", 6)]   # reachability probes, not proof obligations: short budget
         if rec.get("meta", {}).get("canary") == "strict":
-            plan = [("full", "z3", 20), ("full", "z3old", 30)]
+            plan = [("full", "z3", 8), ("full", "z3old", 12)]
     plan = plan or rec.get("plan") or DEFAULT_PLAN
     t0 = time.time()
     attempts = []
